@@ -445,6 +445,45 @@ pub fn mon_c16_sync(out: &mut Out, l: &str, r: &str) {
     }
 }
 
+// ================================================================ C13 through the blocking client
+
+/// a reply cut at every byte offset, then the peer closes the connection: the blocking call,
+/// with and without a timeout configured, must return a transport error, never data
+pub fn gen_c13_sync(out: &mut Out, rng: &mut Rng, thorough: bool) {
+    let rounds = if thorough { 4 } else { 1 };
+    for _ in 0..rounds {
+        let unit = rng.unit();
+        let full = frame("tcp", 0, unit, &[0x03, 0x02, 0x12, 0x34]);
+        for cut in 0..full.len() {
+            for to in ["", " to=1500"] {
+                let part = if cut == 0 { "E".to_string() } else { format!("d{},E", hex_raw(&full[..cut])) };
+                monitor_line(out, &format!("sync tcp {}{to} | call RHR:0001:0001 r={part}", hex8(unit)));
+            }
+        }
+        // the whole reply and then the close: success
+        monitor_line(out, &format!("sync tcp {} to=1500 | call RHR:0001:0001 r=d{},E", hex8(unit), hex_raw(&full)));
+    }
+}
+
+pub fn mon_c13_sync(out: &mut Out, l: &str, r: &str) {
+    if !l.starts_with("sync ") {
+        return;
+    }
+    let ops: Vec<&str> = l.split(" | ").skip(1).collect();
+    let res: Vec<&str> = r.split(" | ").collect();
+    for (i, o) in ops.iter().enumerate() {
+        let got = res.get(i).copied().unwrap_or("").split(" w=").next().unwrap_or("");
+        let Some(rf) = o.split(' ').find_map(|f| f.strip_prefix("r=")) else { continue };
+        let sent: usize = rf.split(',').filter_map(|e| e.strip_prefix('d')).map(|d| d.len() / 2).sum();
+        if rf.ends_with('E') && sent < 11 {
+            out.check(got.starts_with("tr:") && got != "tr:to",
+                || format!("reply cut after {sent} bytes, then end of stream: expected a closed-connection transport error, got `{got}`"), l);
+        } else if rf.ends_with('E') {
+            out.check(got == "ok RHR:1234", || format!("whole reply, then end of stream: expected success, got `{got}`"), l);
+        }
+    }
+}
+
 // ================================================================ C18
 
 pub fn gen_c18(out: &mut Out, rng: &mut Rng, thorough: bool) {
